@@ -1,48 +1,51 @@
-(* C07 — the lifted policy is exactly the script's spending condition.  Statements only.
+(* C07 -- the lifted policy is exactly the script's spending condition.  Statements only.
 
-   FULL STATEMENT (properties.jsonl): for every liftable miniscript / descriptor and every
-   asset world W (signatures, preimages, nLockTime, nSequence):
-       leval W (lift d) = true   <->   exists witness w built from W, the script accepts w.
+   FULL STATEMENT (properties.jsonl), proved here as C07_spending_condition (miniscripts) and
+   C07_desc_spending_condition (descriptor wrappers, taproot trees):
 
-   What is proved here, for ALL fragments of all base types, all nestings/arities, all asset
-   records (the model [lift] mirrors src/policy/mod.rs + Policy::normalized; the verdict of
-   within_resource_limits is an input bit [rl], the theorems hold for both values):
+       policy true in the world W   <->   some stack over W's material is accepted by the script
 
-   * C07_lift_table        leval A (lift m) = true  <->  the specification's satisfaction table
-                           [all_sat ke A m] is non-empty.  Multisig leaves (multi, sortedmulti,
-                           multi_a, sortedmulti_a) included; `thresh` by "some k-subset" <->
-                           "count >= k".  Proved together with
-   * C07_dissat_table      every fragment typed `d` that lifts has a dissatisfaction in the table
-                           whatever the assets (the invariant or_b/or_d/or_c/andor/thresh need).
-   * C07_normalized_preserves_leval / C07_normalized_keeps_invariant
-                           Policy::normalized, as coded, preserves the truth table (for policies
-                           obeying the Rust Threshold invariant 1 <= k <= n, which lift produces
-                           and normalized maintains).
-   * C07_lift_iter_refines / C07_lift_never_panics
-                           the code's iterative form (rtl post-order + stack pops) computes the
-                           recursive fold; its `stack.pop().unwrap()` sites are unreachable.
-   * C07_lift_desc_table   descriptor wrappers: bare/sh/wsh/sh(wsh) = inner, pkh/wpkh/sh(wpkh) = key,
-                           tr = key \/ or(leaves) (per-leaf signatures, same availability).
-   * C07_script_direction_partial   "the policy invents no path": with Theorem A (now covering
-                           the multisig leaves; script-number facts proved), if the lifted policy is
-                           true under assets that are genuine for the transaction environment, a
-                           witness exists that the Script semantics accepts on the ENCODED script
-                           (every B-typed liftable script; liftable already excludes raw_pk_h).
-   * C07_satisfier_implies_policy   the MODEL of the library's satisfier (Ms/Sat.v, both modes) returns
-                           a satisfaction only when the lifted policy is true: the policy hides no
-                           path the satisfier can take (via SatProofs.sat_in_table).
-   * C07_policy_implies_satisfier_partial   conversely a true policy makes the malleable satisfier
-                           model produce a witness (CompleteProofs.mall_complete: thresholds with
-                           k = n only, hence _partial).
+   World: a finite list W of stack elements (what the spender holds: signatures, preimages, and
+   the public constants [], 01, 32 zero bytes, the script's public keys: [pub_in]).  What W can do
+   is read off its material under the transaction environment e ([DenotSpec.assets_of e ke W]):
+     W can sign for k         := some NON-EMPTY element of W verifies under key k   (e_sigok e (kb ke k))
+     W knows a preimage of h  := some 32-byte element of W hashes to h
+     after(t) / older(t)      := the transaction's nLockTime / nSequence meet t      (check_locktime / check_sequence,
+                                 i.e. BIP65 incl. "sequence not final", BIP112 incl. version >= 2)
+   and the lifted policy is evaluated by the truth table [leval] in that world.
+   "A stack over W" := [incl w W]; "accepted" := the Script semantics (Exec.v) runs the ENCODED
+   script on it to exactly one true element ([accepts e (enc ke m) w]).
 
-   NOT proved (hence _partial): the converse at Script level, "the policy hides no path":
-       accepts e (enc ke m) w = true  (w over W's alphabet)  ->  leval A (lift m) = true.
-   It needs Theorem B (execution => table, DESIGN 3.4), which the development does not have
-   yet.  At TABLE level both directions are proved (C07_lift_table is an equivalence); per run
-   the check compares, for every world over the atoms of each generated script, the
-   implementation's lifted policy with the implementation's own malleable satisfier and with
-   the extracted table. *)
-From Verif Require Import Exec Ser Ast Types TypeCheck SatSpec Sat LiftModel TheoremA SatProofs CompleteProofs LiftProofs LiftNormProofs LiftMainProofs.
+   Hypotheses of the equivalence (all named, none about the fragment class): well-typed, base type B,
+   [wf] (constructor invariants), liftable ([lift rl m = Some p]; within_resource_limits is the
+   input bit rl); the empty signature never verifies; BIP67 sorting permutes; [keys_ok] (key table
+   acceptable, pk_h commits to the keys' hash160); world elements shorter than 2^31 bytes;
+   [kh_binds]: among W's material only the key itself has a committed key hash (no hash160
+   collision inside the world) -- needed because the script of pk_h accepts ANY key with that hash.
+   Directions:
+     C07_hides_no_path     (<=)  Theorem B (accepts <-> exact relation R, every non-canonical
+                                 acceptance included: over-satisfied thresh is a DISsatisfaction,
+                                 or_b with both sides satisfied still satisfies `or`, non-zero hash
+                                 dissatisfactions sit in dissatisfied `d` children) + CompleteScript
+                                 (exact satisfaction from covered material => table entry) + lift_table.
+     C07_invents_no_path   (=>)  lift_table + every table entry is built from W's material and the
+                                 public constants + Theorem A.
+
+   Also proved, for ALL fragments of all base types, all nestings/arities, all asset records:
+   * C07_lift_table / C07_dissat_table   the table-level equivalence and its mutual invariant
+   * C07_normalized_preserves_leval / C07_normalized_keeps_invariant   Policy::normalized as coded
+   * C07_lift_iter_refines / C07_lift_never_panics   the iterative form = the recursive fold; no panic
+   * C07_lift_desc_table   descriptor wrappers at table level
+   * C07_satisfier_implies_policy, C07_policy_iff_satisfier   the MODEL of the library's satisfier
+     (Ms/Sat.v) returns a satisfaction only if the policy is true (both modes), and in malleable mode
+     exactly when it is true (k-of-n thresholds included; [thresh_fit] = no i64 overflow in the
+     satisfier's sort key, dischargeable by CompleteThresh.fit_of_bound).
+
+   Nothing is refuted: no direction fails on the faithful model.  Remaining limits (notes/C07.md):
+   the descriptor statement covers the script part of each output type (inner script / tap leaf
+   under its own environment / key signature); the output-type wrapping is C15 / C16. *)
+From Verif Require Import Exec Ser Ast Types TypeCheck SatSpec Sat LiftModel TheoremA SatProofs FrameDissat CompleteProofs CompleteThresh CompleteNonMall
+  DenotSpec LiftProofs LiftNormProofs LiftMainProofs LiftFullProofs.
 From Coq Require Import Permutation.
 
 (* BIP67 sorting only reorders keys *)
@@ -89,15 +92,40 @@ Theorem C07_lift_desc_table :
 Proof. exact lift_desc_table. Qed.
 Print Assumptions C07_lift_desc_table.
 
-Theorem C07_script_direction_partial :
+Theorem C07_hides_no_path :
+  forall (e : env) (ke : keyenv), sort_permutes ke -> (forall kbs, e_sigok e kbs [] = false) ->
+  forall (W : wit) (rl : bool) (m : ms) (t : ty) (p : lpolicy),
+    kh_binds e ke W ->
+    type_of m = ROk t -> c_base (t_corr t) = BB -> wf e ke m -> lift rl m = Some p ->
+    forall w, incl w W -> accepts e (enc ke m) w = true -> leval (assets_of e ke W) p = true.
+Proof. exact lift_hides_no_path. Qed.
+Print Assumptions C07_hides_no_path.
+
+Theorem C07_invents_no_path :
+  forall (e : env) (ke : keyenv), sort_permutes ke -> (forall kbs, e_sigok e kbs [] = false) ->
+  forall (W : wit) (rl : bool) (m : ms) (t : ty) (p : lpolicy),
+    keys_ok e ke -> (forall x, In x W -> (blen x < 2147483648)%N) -> pub_in ke m W ->
+    type_of m = ROk t -> c_base (t_corr t) = BB -> wf e ke m -> lift rl m = Some p ->
+    leval (assets_of e ke W) p = true -> exists w, incl w W /\ accepts e (enc ke m) w = true.
+Proof. exact lift_invents_no_path. Qed.
+Print Assumptions C07_invents_no_path.
+
+Theorem C07_spending_condition :
+  forall (e : env) (ke : keyenv), sort_permutes ke -> (forall kbs, e_sigok e kbs [] = false) ->
+  forall (W : wit) (rl : bool) (m : ms) (t : ty) (p : lpolicy),
+    keys_ok e ke -> (forall x, In x W -> (blen x < 2147483648)%N) -> pub_in ke m W -> kh_binds e ke W ->
+    type_of m = ROk t -> c_base (t_corr t) = BB -> wf e ke m -> lift rl m = Some p ->
+    (leval (assets_of e ke W) p = true <-> exists w, incl w W /\ accepts e (enc ke m) w = true).
+Proof. exact lift_spending_condition. Qed.
+Print Assumptions C07_spending_condition.
+
+Theorem C07_desc_spending_condition :
   forall (ke : keyenv), sort_permutes ke ->
-  forall (e : env) (A : assets), assets_ok e ke A -> (forall kbs, e_sigok e kbs [] = false) ->
-  forall (rl : bool) (m : ms) (t : ty) (p : lpolicy),
-    type_of m = ROk t -> c_base (t_corr t) = BB -> wf e ke m ->
-    lift rl m = Some p -> leval A p = true ->
-    exists w, In w (all_sat ke A m) /\ accepts e (enc ke m) w = true.
-Proof. exact lift_script_direction. Qed.
-Print Assumptions C07_script_direction_partial.
+  forall (e : env) (eleaf : nat -> env) (W : wit) (d : ldesc) (p : lpolicy),
+    desc_full_ok e eleaf ke W d -> lift_desc d = LOk p ->
+    (leval (assets_of e ke W) p = true <-> desc_script_spendable e eleaf ke W d).
+Proof. exact lift_desc_spending_condition. Qed.
+Print Assumptions C07_desc_spending_condition.
 
 Theorem C07_satisfier_implies_policy :
   forall (ke : keyenv), sort_permutes ke ->
@@ -108,19 +136,14 @@ Theorem C07_satisfier_implies_policy :
 Proof. exact lift_satisfier_implies_policy. Qed.
 Print Assumptions C07_satisfier_implies_policy.
 
-Theorem C07_policy_implies_satisfier_partial :
-  forall (ke : keyenv), sort_permutes ke ->
-  forall (A : assets) (se : senv) (f : fill), linked ke A se f ->
-  (forall t1 t2, se_after se t1 = true -> se_after se t2 = true ->
-                 Bool.eqb (N.ltb t1 500000000) (N.ltb t2 500000000) = true) ->
-  (forall t1 t2, se_older se t1 = true -> se_older se t2 = true ->
-                 Bool.eqb (rel_is_time t1) (rel_is_time t2) = true) ->
+Theorem C07_policy_iff_satisfier :
+  forall (ke : keyenv) (A : assets) (se : senv) (f : fill), sort_permutes ke ->
+  linked ke A se f -> locks_compatible se ->
   forall (rhs rl : bool) (m : ms) (t : ty) (p : lpolicy),
-    type_of m = ROk t -> ms_thresh_ok m -> no_partial_thresh m ->
-    lift rl m = Some p -> leval A p = true ->
-    is_stack (s_stack (snd (sat_dissat ke se true rhs m))) = true.
-Proof. exact lift_policy_implies_satisfier. Qed.
-Print Assumptions C07_policy_implies_satisfier_partial.
+    type_of m = ROk t -> ms_thresh_ok m -> thresh_fit ke se rhs m -> lift rl m = Some p ->
+    (leval A p = true <-> exists bs, satisfy ke se f true rhs m = Some bs).
+Proof. exact lift_policy_iff_satisfier. Qed.
+Print Assumptions C07_policy_iff_satisfier.
 
 (* non-vacuity: concrete liftable scripts, what they lift to, and that both truth values occur *)
 Example C07_ex_andor :
@@ -143,13 +166,20 @@ Proof. repeat split; reflexivity. Qed.
 Example C07_ex_typed :
   exists t, type_of (MAndOr (MCheck (MPkK 0%N)) (MOlder 5%N) (MCheck (MPkH 1%N))) = ROk t /\ c_base (t_corr t) = BB.
 Proof. eexists. split; reflexivity. Qed.
-(* the hypotheses of C07_script_direction_partial are jointly satisfiable: a concrete
-   environment, key table, asset record and script *)
-Example C07_script_direction_nonvacuous :
-  assets_ok ex_e ex_ke ex_A /\ (forall kbs, e_sigok ex_e kbs [] = false) /\ sort_permutes ex_ke /\
-  exists t p, type_of ex_m = ROk t /\ c_base (t_corr t) = BB /\ wf ex_e ex_ke ex_m /\
-              lift true ex_m = Some p /\ leval ex_A p = true.
-Proof. exact lift_nonvacuous. Qed.
+(* the hypotheses of C07_spending_condition are jointly satisfiable, for a world where the policy
+   is true (it holds a signature) and for one where it is false (the same without the signature) *)
+Example C07_spending_condition_nonvacuous :
+  forall W, W = fx_W \/ W = fx_W0 ->
+  keys_ok fx_e fx_ke /\ (forall kbs, e_sigok fx_e kbs [] = false) /\ sort_permutes fx_ke /\
+  (forall x, In x W -> (blen x < 2147483648)%N) /\ pub_in fx_ke fx_m W /\ kh_binds fx_e fx_ke W /\
+  exists t, type_of fx_m = ROk t /\ c_base (t_corr t) = BB /\ wf fx_e fx_ke fx_m.
+Proof. exact fx_hyps. Qed.
+Example C07_spending_condition_true_world :
+  exists p, lift true fx_m = Some p /\ leval (assets_of fx_e fx_ke fx_W) p = true.
+Proof. exact fx_true. Qed.
+Example C07_spending_condition_false_world :
+  exists p, lift true fx_m = Some p /\ leval (assets_of fx_e fx_ke fx_W0) p = false.
+Proof. exact fx_false. Qed.
 Example C07_ex_both_values :
   let p := LThresh 1 [LThresh 2 [LKey 0%N; LOlder 5%N]; LKey 1%N] in
   let A1 := mkAssets (fun k => if N.eqb k 1 then Some [1%N] else None) (fun _ => None) (fun _ => None) (fun _ => None)
